@@ -537,3 +537,50 @@ func H_C10_lookupHistory() {
 	vfNote(got)
 	vfAssert(got == want, "the same bytes whatever was looked up before")
 }
+
+// H_C10_panicHistory (round 8): the first execution dies with a panic that Execute does not
+// turn into an error - a Go runtime error or a non-error panic value raised by a custom
+// function below a range / an if with a declaration - and the caller recovers it; the next
+// execution on the same goroutine, with nil data, renders what it renders on a fresh Set
+// ('.' and the variables of the abandoned execution are gone).
+//
+//gosym:reach compared
+func H_C10_panicHistory() {
+	how := ndChoice("how", 3) // 0 runtime error, 1 panic("text"), 2 an ordinary error (Execute returns it)
+	where := ndChoice("where", 3)
+	first := []string{
+		`{{ range one }}{{ e := 1 }}{{ boom() }}{{ end }}`,
+		`{{ if e := 1; true }}{{ boom() }}{{ end }}`,
+		`{{ e := 1 }}{{ include "/inc.jet" "ctx" }}`,
+	}[where]
+	second := `{{ isset(.) }}|{{ isset(e) }}|{{ . }}`
+	run2 := func(set *Set) string {
+		out, err := hxExec(set, "/second.jet", nil, nil)
+		if err != nil {
+			return out + "<error>"
+		}
+		return out
+	}
+	want := run2(hxSet(nil, "/second.jet", second))
+	set := hxSet(nil, "/first.jet", first, "/inc.jet", `{{ boom() }}`, "/second.jet", second)
+	vars := make(VarMap)
+	vars.Set("one", []string{"elem"})
+	vars.SetFunc("boom", func(a Arguments) reflect.Value {
+		switch how {
+		case 0:
+			var s []int
+			_ = s[len(vars)+3]
+		case 1:
+			panic("text")
+		}
+		panic(hxErr{"boom"})
+	})
+	func() {
+		defer func() { recover() }()
+		hxExec(set, "/first.jet", vars, "D1")
+	}()
+	got := run2(set)
+	vfReach("compared")
+	vfNote(got)
+	vfAssert(got == want, "after an execution that panicked out of Execute, the next one renders what it renders on a fresh Set")
+}
